@@ -69,7 +69,8 @@ CLAIMS = {
         text="Decides that every site that may hand the terminal to a job gives it back on all paths, the hand-over guard "
              "(has_terminal, isatty, not background, stage 0), setpgid on both sides of fork before exec, the signal-mask bracket "
              "in give_terminal_to, SIGCONT to the whole group unconditionally in fg/bg, background polling after every input "
-             "line, ignored job-control signals reset in the child, and the job-state clauses shared with C06.",
+             "line, ignored job-control signals reset in the child, the job-state clauses shared with C06, and that wait_fg_job returns (the terminal is taken back) only once the "
+             "job's own members are done (wait-loop analysis shared with C02).",
         note="trusted: MIR, libc; real process groups / signal delivery not decided",
         ref="4/C07"),
     "C08": dict(
@@ -100,9 +101,9 @@ CLAIMS = {
         technique="static analysis: taint (command output into regex replacement template / rescan), stutter rule, "
                   "constant-argument rule, pass-order rule, edit-list rule, regex shape comparison",
         text="Decides that captured output cannot reach a replacement template unescaped or be rescanned for $(, the "
-             "substitution loop cannot stutter and its splice pattern is as wide as its gate, capture=true at the three sites, "
+             "substitution loops (both passes) cannot stutter and its splice pattern is as wide as its gate, capture=true at the three sites, "
              "trailing-newline-only trimming of an output that is read whatever the command's status, read to EOF, one expansion per line, no interpreting pass after substitution, "
-             "positions stay valid until used, bracketed counters are restored on every path, the extracting pattern (evaluated as "
+             "positions stay valid until used and are exact (enumerate() over the vector itself), bracketed counters are restored on every path, the extracting pattern (evaluated as "
              "data) takes one substitution at a time, the captured stderr is passed on, a function's output is concatenated as "
              "written, assignment patterns accept multi-line values, and which commands run inside the shell process when "
              "capturing (open finding).",
@@ -112,7 +113,8 @@ CLAIMS = {
         technique="static analysis: tag-guard rule, tag-expression control dependence, edit-order (Rev) and edit-list rules, "
                   "loop-shape rule, template taint, provenance rules",
         text="Decides: no expansion of tagged tokens, produced words with spaces get a quote tag, pending edits applied in "
-             "descending order on the vector as scanned, a glob never yields an empty list, the two counting loops of brace "
+             "descending order on the vector as scanned at positions that are the tokens' own indexes (hand counter advanced once per "
+             "token, or enumerate() over the vector itself), a glob never yields an empty list, the two counting loops of brace "
              "ranges, HOME read at expansion time and not as a template, the `.`/`..` filter, ranges keep the text around the "
              "braces, a group's closing brace is consumed once, only `~` / `~/` are rewritten (pattern evaluated as data), a "
              "`./` prefix is kept, every pass sees the previous passes' words, hidden entries judged by the last path component. Produced word lists (cartesian order, glob "
